@@ -48,6 +48,16 @@ Proof.
     destruct (String.eqb y x); [f_equal; lia | reflexivity].
 Qed.
 
+(* ids are handed out densely: a definition always gets the next unused id *)
+Lemma cg_name_def_dense : forall tbl0 name k n,
+  fst (cg_name tbl0 name) = NDef k n ->
+  k = Z.of_nat (List.length tbl0) + 1 /\ n = name /\ snd (cg_name tbl0 name) = (tbl0 ++ [name])%list /\
+  index_of name tbl0 1 = None.
+Proof.
+  intros tbl0 name k n. unfold cg_name. destruct (String.eqb name ""); [discriminate|].
+  destruct (index_of name tbl0 1) eqn:E; simpl; intro H; [discriminate H|]. inversion H. auto.
+Qed.
+
 (* the reader may see each written name through a view f (text level: leading blanks are lost) *)
 Definition map_ref (f : string -> string) (r : nref) : nref :=
   match r with NEmpty => NEmpty | NDef k n => NDef k (f n) | NRef k => NRef k end.
